@@ -69,16 +69,17 @@ type World struct {
 	InvBase     time.Time // reference instant of invalidity dates when no signing time is supplied (zero = stBase)
 	CloneOf     *World    // soak: same chain and URLs as this world, other contents
 	// materialised
-	OtherCA    *Cert
-	Unrelated  *Key
-	NameTwins  map[int]*Cert
-	Siblings   map[int]*Cert
-	Delegates  map[int]*Cert
-	BadDeleg   map[int]*Cert
-	UnrelCert  *Cert
-	crlReg     map[string]*CRLSpec // pre-run registry (cache seeds)
-	ka         *keyAllocator
-	fetchSlots map[string]*fetchSlot
+	OtherCA     *Cert
+	Unrelated   *Key
+	NameTwins   map[int]*Cert
+	Siblings    map[int]*Cert
+	Delegates   map[int]*Cert
+	BadDeleg    map[int]*Cert
+	UnrelCert   *Cert
+	emptyCRLURL bool
+	crlReg      []*CRLSpec // pre-run registry (cache seeds); a list: two seeds may be byte-identical
+	ka          *keyAllocator
+	fetchSlots  map[string]*fetchSlot
 }
 
 // RevScenario is everything one run does.
@@ -590,6 +591,14 @@ func (p *RevProfile) genWorld(t *Tape, sc *RevScenario, id int) *World {
 			s := &CRLSrc{Host: fmt.Sprintf("c%d-%d.w%d.sim", pos, i, id)}
 			if faulty && p.HostileURL > 0 && t.Bool(p.HostileURL) {
 				s.URLKind = 1 + t.Choose(nURLKinds-1)
+				if s.URLKind == UEmpty {
+					// Fetch("") calls cannot be told apart: at most one
+					// distribution point of a world carries the empty string
+					if w.emptyCRLURL {
+						s.URLKind = UNoScheme
+					}
+					w.emptyCRLURL = true
+				}
 			}
 			s.URL = makeURL(s.URLKind, s.Host, []string{"/ca.crl", "/crl/ca.crl?v=2", "/", ""}[t.Weighted(76, 8, 8, 8)])
 			if i > 0 && s.URLKind == UNormal && cp.CRL[i-1].URLKind == UNormal && !strings.Contains(cp.CRL[i-1].URL, "?") && t.Bool(7) {
